@@ -1002,7 +1002,6 @@ func replayIO(r *report, w *world, o runOpts) int {
 	return r.finish()
 }
 
-
 func tailFrom(s, marker string) string {
 	if k := strings.Index(s, marker); k >= 0 {
 		return s[k:]
